@@ -19,6 +19,7 @@ EXPLANATION = (
     "list and None on the empty branch; shuffle permutes that fresh list in place with Model.random.shuffle and returns "
     "it; neither writes environment state. Not decided: that every matching agent is reachable by the pick "
     "(uniformity of random.choice).")
+EXPLANATION += (' get_agents, get_random_agent and shuffle have no raising path, direct or through package callees (calls inside f-strings included).')
 ASSUMPTIONS = ["random.Random.choice / shuffle semantics", "dict preserves insertion order"]
 
 ENVQ = CORE + 'Environment'
@@ -47,7 +48,7 @@ def run(cx: Cx):
     check_overrides_forward(cx, CORE + 'Agent', ['has_component'])
     from .common import include_premises
     include_premises(cx, ['C04'], 'the queries filter the agents that were added and not removed, in joining order: residency is C04\'s',
-                     only=lambda o: o.rule in ('R-DISC', 'R-NONE') and (o.function or '').endswith(('.add_agent', '.remove_agent')))
+                     only=lambda o: o.rule in ('R-DISC', 'R-NONE', 'R-GUARD', 'R-ATOMIC') and (o.function or '').endswith(('.add_agent', '.remove_agent')))
     include_premises(cx, ['C20'], 'filtering by tag is exact only if an agent carries the tag it was given (tag 0 included)',
                      only=lambda o: 'Agent.__init__' in o.function)
 
